@@ -33,7 +33,10 @@ def coarse(kind, nat):
 
 
 GRIDCFG = ['one-uniform', 'one-log', 'two-nested-uniform', 'two-offgrid-uniform', 'two-offgrid-log',
-           'two-offgrid-coarsefirst-uniform', 'two-samelen-offset-uniform', 'two-samelen-offset-log']
+           'two-offgrid-coarsefirst-uniform', 'two-samelen-offset-uniform', 'two-samelen-offset-log',
+           # the second molecule's points nearly coincide with the first one's (the same line list re-calibrated by a
+           # few parts per million): they are still other points
+           'two-samelen-ppm-uniform', 'two-samelen-ppm-log']
 MAGS = {'thin': 1e-31, 'tau1': 1e-27, 'mixed': 1.0}
 
 
@@ -52,7 +55,9 @@ def install(cfg, mag, kind):
     grids = {'H2O': nat}
     tabs = {'H2O': t1}
     if cfg.startswith('two'):
-        if 'samelen' in cfg:     # same number of points as the finest grid, shifted by 40 % of a spacing
+        if 'ppm' in cfg:
+            cg = nat * (1.0 + 5e-6)
+        elif 'samelen' in cfg:     # same number of points as the finest grid, shifted by 40 % of a spacing
             cg = nat + 0.4 * np.gradient(nat)
         else:
             cg = coarse('nested' if 'nested' in cfg else 'off', nat)
@@ -188,6 +193,26 @@ def opacity_fn(case):
             r.check(False, 'no-exception', 'exception/%s/own/%s' % (type(e).__name__, tag), exc=repr(e))
             return r
         r.eq(got, full[i:j], 'own-points-unchanged', 'own/' + tag, rtol=1e-13, request=req)
+    elif kind == 'near':
+        # points a few parts per million away from the native ones: other points, whose values must lie between
+        # the native neighbours and must not depend on how many of them are asked for at once
+        near = nat * (1.0 + 5e-6)
+        req = near[i:j].copy()
+        try:
+            got = np.asarray(op.opacity(T, P, req), float)
+            allnear = np.asarray(op.opacity(T, P, near.copy()), float)
+        except Exception as e:
+            r.check(False, 'no-exception', 'exception/%s/near/%s' % (type(e).__name__, tag), exc=repr(e), request=req)
+            return r
+        if not r.check(got.shape[0] == len(req) and allnear.shape[0] == len(near), 'shape', 'shape/' + tag):
+            return r
+        r.eq(got, allnear[i:j], 'value-independent-of-request', 'near/' + tag, rtol=1e-12, request=req)
+        for k, wv in enumerate(near):
+            hi = min(int(np.searchsorted(nat, wv)), len(nat) - 1)
+            lo = max(hi - 1, 0)
+            a, b = np.minimum(full[lo], full[hi]), np.maximum(full[lo], full[hi])
+            r.check(bool(np.all(allnear[k] >= a * (1 - 1e-12)) and np.all(allnear[k] <= b * (1 + 1e-12))),
+                    'between-neighbouring-native-values', 'between-near/' + tag, wn=wv, got=allnear[k], lo=a, hi=b)
     else:
         fine = np.sort(np.concatenate([nat[:-1] + f * np.diff(nat) for f in (0.25, 0.6)] +
                                       [[nat[0] * 0.9, nat[-1] * 1.1]]))
@@ -266,6 +291,8 @@ def explore(ctx):
         for i in range(9):
             for j in range(i + 1, 10):
                 ocases.append({'spacing': spacing, 'ng': ng, 'TP': TP, 'req': ['own', [i, j]]})
+                if thorough or (j - i) in (1, 2, 4, 8, 9):
+                    ocases.append({'spacing': spacing, 'ng': ng, 'TP': TP, 'req': ['near', [i, j]]})
         nf = 18
         for i in range(nf):
             for j in range(i + 1, nf + 1):
